@@ -1,6 +1,8 @@
 package an
 
 import (
+	"go/token"
+	"go/types"
 	"sort"
 	"strings"
 
@@ -121,6 +123,28 @@ func EvalUnder(v ssa.Value, env phiEnv, assume Assume, depth int) (val, known bo
 	if assume != nil {
 		if x, ok := assume(v); ok {
 			return x == pos, true
+		}
+	}
+	// comparison of two integers that are both constants under the hypothesis (a mode computed once by a
+	// pure function of the options and switched on later)
+	if cmp, ok := v.(*ssa.BinOp); ok && (cmp.Op == token.EQL || cmp.Op == token.NEQ) && depth < 3 {
+		if xs, okx := valuesUnder(cmp.X, assume, depth); okx {
+			if ys, oky := valuesUnder(cmp.Y, assume, depth); oky {
+				if len(xs) == 1 && len(ys) == 1 && xs[0] == ys[0] {
+					return (cmp.Op == token.EQL) == pos, true
+				}
+				disjoint := true
+				for _, a := range xs {
+					for _, b := range ys {
+						if a == b {
+							disjoint = false
+						}
+					}
+				}
+				if disjoint {
+					return (cmp.Op == token.NEQ) == pos, true
+				}
+			}
 		}
 	}
 	// a call to a module predicate: evaluate its result under the same hypothesis
@@ -272,6 +296,89 @@ func IsPurePredicate(g *ssa.Function, depth int) bool {
 					continue
 				}
 				if !IsPurePredicate(x.Call.StaticCallee(), depth+1) {
+					return false
+				}
+			}
+		}
+	}
+	return true
+}
+
+// valuesUnder evaluates an integer value to the finite set of constants it can
+// be under the hypothesis: a constant, or the result of a pure module function
+// every return of which, reachable under the hypothesis, is such a value.
+func valuesUnder(v ssa.Value, assume Assume, depth int) ([]int64, bool) {
+	if k, ok := ConstInt(v); ok {
+		return []int64{k}, true
+	}
+	switch x := v.(type) {
+	case *ssa.Convert:
+		return valuesUnder(x.X, assume, depth)
+	case *ssa.ChangeType:
+		return valuesUnder(x.X, assume, depth)
+	case *ssa.Call:
+		g := x.Call.StaticCallee()
+		if g == nil || g.Blocks == nil || depth >= 3 || !InModule(g) {
+			return nil, false
+		}
+		res := g.Signature.Results()
+		if res.Len() != 1 {
+			return nil, false
+		}
+		if b, ok := res.At(0).Type().Underlying().(*types.Basic); !ok || b.Info()&types.IsInteger == 0 {
+			return nil, false
+		}
+		if !isPureFunc(g, 0) {
+			return nil, false
+		}
+		okAll := true
+		set := map[int64]bool{}
+		ExploreUnder(g.Blocks[0], assume, nil, depth+1, func(b *ssa.BasicBlock, env phiEnv) {
+			ret, isRet := b.Instrs[len(b.Instrs)-1].(*ssa.Return)
+			if !isRet || len(ret.Results) != 1 {
+				return
+			}
+			ks, ok := valuesUnder(ret.Results[0], assume, depth+1)
+			if !ok {
+				okAll = false
+				return
+			}
+			for _, k := range ks {
+				set[k] = true
+			}
+		})
+		if !okAll || len(set) == 0 || len(set) > 16 {
+			return nil, false
+		}
+		var out []int64
+		for k := range set {
+			out = append(out, k)
+		}
+		return out, true
+	}
+	return nil, false
+}
+
+// isPureFunc: g has no effect (no store except into its own locals, no map
+// update, no send/go/defer, only calls to builtins and other pure functions).
+func isPureFunc(g *ssa.Function, depth int) bool {
+	if g == nil || g.Blocks == nil || depth > 3 {
+		return false
+	}
+	for _, b := range g.Blocks {
+		for _, in := range b.Instrs {
+			switch x := in.(type) {
+			case *ssa.Store:
+				if _, local := Root(x.Addr).(*ssa.Alloc); !local {
+					return false
+				}
+			case *ssa.MapUpdate, *ssa.Send, *ssa.Go, *ssa.Defer, *ssa.RunDefers, *ssa.Select:
+				return false
+			case *ssa.Call:
+				if _, isBuiltin := x.Call.Value.(*ssa.Builtin); isBuiltin {
+					continue
+				}
+				if !isPureFunc(x.Call.StaticCallee(), depth+1) {
 					return false
 				}
 			}
